@@ -213,7 +213,7 @@ def run_case(case, ctx):
     res = Res()
     recipe = make_recipe(case, ctx)
     # the project directory's own name is part of "every project tree": blanks, non-ASCII, characters that mean something to glob
-    rootname = ["proj", "proj", "proj", "pr[v2]", "p*x", "q?y", "sp ace", "ünï", "a[b", "x]y[", "{z}"][case["k"] % 11]
+    rootname = ["proj", "proj", "proj", "pr[v2]", "p*x", "q?y", "sp ace", "ünï", "a[b", "x]y[", "{z}", "subprojects", ".hidden"][case["k"] % 13]
     top = ctx.scratch / f"c01-{case['k']}"
     root = top / rootname
     try:
